@@ -218,6 +218,29 @@ def run_case(c):
             bad("d2f_result_overwritten", "a second run_d2f wrote into the array the first one had handed out (changed by %.3e)" % np.abs(np.array(held) - f2).max(), **feat)
         if np.abs(np.array(rd.force_constants) - fc).max() > 1e-9 * np.abs(fc).max():
             bad("d2f", "second run_d2f differs from the original force constants by %.3e" % np.abs(np.array(rd.force_constants) - fc).max(), second=True, **feat)
+        # a second sampler in another unit system (the factor is a constructor argument; the API passes the calculator's), with the documented
+        # read-back / write-back of the frequencies applied with nothing modified: still "unmodified eigen-solutions", so the canonical
+        # covariance in that unit system and the original force constants must come out (round 9)
+        from phonopy.phonon.random_displacements import RandomDisplacements
+
+        fac2 = factor * (0.8 if c["seed"] % 3 else 1.0)
+        rd2 = RandomDisplacements(sc, pr, np.array(fc), dist_func=dist, cutoff_frequency=c["cutoff"], factor=fac2)
+        rd2.frequencies = rd2.frequencies
+        obs["n_other_unit_factor_writeback"] = 1
+        obs["n_other_unit_factor_nondefault"] = int(fac2 != factor)
+        rd2.run_d2f()
+        if np.abs(np.array(rd2.force_constants) - fc).max() > 1e-9 * np.abs(fc).max():
+            bad("d2f", "sampler with unit factor %.6g, frequencies read and written back unchanged: run_d2f differs from the original force constants by %.3e" % (
+                fac2, np.abs(np.array(rd2.force_constants) - fc).max()), unit_factor_ratio=fac2 / factor, writeback=True, **feat)
+        if not (dist == "classical" and T == 0):
+            C2, cond2_, w2_, V2_, f2_ = canonical_cov(fc, np.array(sc.masses), T, dist, cutoff, fac2)
+            if not (np.abs(f2_ - cutoff) < 1e-6).any() and not (w2_[f2_ > cutoff] < 0).any():
+                rd2.run_correlation_matrix(T)
+                uu_ = np.array(rd2.uu).transpose(0, 2, 1, 3).reshape(3 * ns, 3 * ns)
+                sc2_ = max(np.abs(C2).max(), 1e-300)
+                if np.abs(uu_ - C2).max() > 1e-9 * sc2_:
+                    bad("uu", "sampler with unit factor %.6g, frequencies read and written back unchanged: correlation matrix differs from the canonical covariance by %.3e (scale %.3e)" % (
+                        fac2, np.abs(uu_ - C2).max(), sc2_), unit_factor_ratio=fac2 / factor, writeback=True, **feat)
         key = "rd|%s|%s|%s|%s|%s|%s" % (c["crystal"]["name"], c["smat"], c["pmat"], dist, T, c["cutoff"])
         return {"viol": viol, "nontrivial": bool(ns >= 2 and n_included >= 4), "key": key, "obs": obs, "evals": A.shape[1],
                 "sample": {"kind": "random", "crystal": c["crystal"], "smat": c["smat"], "pmat": pm, "dist": dist, "T": T, "cutoff": c["cutoff"], "n_ii": nii, "n_ij": nij,
